@@ -2,6 +2,9 @@
 """Regenerates MANIFEST.json from the table below (kept in one place so it stays valid)."""
 import json, subprocess
 CHECKS = {
+ "C01": dict(level="exploration", tech="history + reference-model oracle on a real node SwarmDriver/NodeRecordStore driven through the real command handlers; guarded gates park the spawned disk-write / delete tasks and a seeded scheduler releases them in arbitrary cross-key order",
+             text="Random multi-key histories of puts / overwrites / identical re-puts / removes / reads run on the real store (encryption on, small caches) while the scheduler permutes command handling and disk-task completion across keys; every read is judged against the values ever handed for that key, and at quiescent points every key is judged for exact bytes, contains, listing and file presence.",
+             note="Same-key tasks and commands keep spawn order (the statement promises independence across keys only); the harness scheduler and gate hook are trusted to preserve causality.", ref="DESIGN.md §4 C01"),
  "C06": dict(level="exploration", tech="reference-model oracle (admissible-set model written from the statement) over random operation pools, delivery orders, duplications, partitions and merges on real SignedRegister / RegisterCrdt replicas; closure check by re-decoding and verify()",
              text="Pools of authorised / unauthorised / forged / oversized / foreign-address / causally chained operations are delivered to 2-5 real replicas in random orders and healed by random merges; every add_op result, every replica's op set, convergence of op sets and of CRDT reads, merge algebra and closure (incl. at and across the 1024-entry limit) are judged.",
              note="Open registers take any operation; forgeries are bit-level (no hash-collision attacks on the 64-bit signed digest).", ref="DESIGN.md §4 C06"),
